@@ -134,9 +134,31 @@ type ClockPlan struct {
 	next   int
 }
 
+// SchedPolicy is how the driver picks among the enabled operations of a step.
+// Every decision still comes from the tape (a tape that has run out keeps a
+// sticky run on the task it is on and a priority run on its priorities), so
+// shrinking a tape stays valid under every policy.
+//
+//	""        weighted uniform choice among the enabled slots (and the clock)
+//	"sticky"  3 steps in 4 the slot that moved last moves again while it can:
+//	          long runs of one task, one task far ahead of the others
+//	"prio"    7 steps in 8 the enabled slot with the highest priority moves;
+//	          priorities are a hash of (Seed, slot id), and at the step numbers
+//	          in Changes the slot that moves is demoted below all others
+//	          (probabilistic concurrency testing, Burckhardt et al. 2010)
+type SchedPolicy struct {
+	Kind    string `json:"kind"`
+	Seed    uint64 `json:"seed,omitempty"`
+	Changes []int  `json:"changes,omitempty"`
+}
+
 type Sim struct {
 	Tape    *Tape
 	StepCap int
+	Policy  *SchedPolicy
+	last    *Slot    // driver only
+	demoted []uint64 // driver only: slot id -> priority override (0: none)
+	nextLow uint64
 	Horizon time.Duration // how far the clock may be pushed to release timers before a wedge is declared
 	Clock   *ClockPlan
 
@@ -456,8 +478,36 @@ func (s *Sim) Run(done Enabler) StopReason {
 		}
 		idle = 0
 		s.setIdle(false)
-		pick := s.Tape.Draw(total + clockW)
-		if pick >= total {
+		var chosen *Slot
+		if pol := s.Policy; pol != nil && len(en) > 0 {
+			switch pol.Kind {
+			case "sticky":
+				if s.last != nil {
+					for _, sl := range en {
+						if sl == s.last {
+							if s.Tape.Draw(4) != 3 {
+								chosen = sl
+							}
+							break
+						}
+					}
+				}
+			case "prio":
+				if s.Tape.Draw(8) != 7 {
+					var best uint64
+					for _, sl := range en {
+						if p := s.priority(sl); chosen == nil || p > best {
+							chosen, best = sl, p
+						}
+					}
+				}
+			}
+		}
+		pick := 0
+		if chosen == nil {
+			pick = s.Tape.Draw(total + clockW)
+		}
+		if chosen == nil && pick >= total {
 			c := s.Clock
 			d := c.Jumps[c.next]
 			c.next++
@@ -465,13 +515,22 @@ func (s *Sim) Run(done Enabler) StopReason {
 			time.Sleep(d)
 			continue
 		}
-		var chosen *Slot
-		for _, sl := range en {
-			if pick < sl.Weight {
-				chosen = sl
-				break
+		if chosen == nil {
+			for _, sl := range en {
+				if pick < sl.Weight {
+					chosen = sl
+					break
+				}
+				pick -= sl.Weight
 			}
-			pick -= sl.Weight
+		}
+		s.last = chosen
+		if pol := s.Policy; pol != nil && pol.Kind == "prio" {
+			for _, c := range pol.Changes {
+				if c == s.StepNo() {
+					s.demote(chosen)
+				}
+			}
 		}
 		g := chosen.take()
 		s.appendStep(Step{N: s.StepNo(), Slot: chosen.ID, Label: chosen.curLabel()})
@@ -483,6 +542,26 @@ func (s *Sim) Run(done Enabler) StopReason {
 		return StopDone
 	}
 	return StopCap
+}
+
+// priority of a slot under the "prio" policy: a hash of (seed, id) in the upper
+// range, or — once demoted — a small number that shrinks with every demotion.
+func (s *Sim) priority(sl *Slot) uint64 {
+	if sl.ID < len(s.demoted) && s.demoted[sl.ID] != 0 {
+		return s.demoted[sl.ID]
+	}
+	return Mix(s.Policy.Seed, uint64(sl.ID))|1<<63
+}
+
+func (s *Sim) demote(sl *Slot) {
+	for len(s.demoted) <= sl.ID {
+		s.demoted = append(s.demoted, 0)
+	}
+	if s.nextLow == 0 {
+		s.nextLow = 1 << 40
+	}
+	s.nextLow--
+	s.demoted[sl.ID] = s.nextLow
 }
 
 // Abort releases every parked task with a "torn down" result; used after the
